@@ -344,6 +344,18 @@ def thread_ops(rng, n):
                    'delay_us': str(rng.choice([0, 0, 0, 1, 10, 100, 1000])),
                    'spin': str(rng.choice([0, 200, 2000, 20000]))})
         ops.append(op.line())
+    # one forced op per solver so that "an Interrupted run of every solver was seen" does not depend on the scheduler
+    # (quick tier: 8 FISTA ops, 4–6 of them interrupted on an idle machine; a `spin=0` solve on a 1-vCPU runner ends
+    # before the stopper thread is scheduled): stop at the first evaluation, slow evaluations, unreachable tolerance
+    for s in THREAD_SOLVERS + ['alm']:
+        first = next((o for o in ops if S.Op.parse(o).get('solver') == s), None)
+        if first is not None:
+            f = S.Op.parse(first)
+            f.update({'stopeval': '1', 'delay_us': '0', 'spin': '400000', 'tol': C.f2h(1e-300),
+                         'maxiter': '1000'})
+            if s == 'alm':
+                f.update({'dtol': C.f2h(1e-300), 'almiter': '30'})
+            ops.append(f.line())
     return ops
 
 
@@ -352,7 +364,7 @@ def thread_monitor(op_line, out_line):
         return f'thread harness: {out_line[:100]}'
     r = S.parse_out(out_line)
     if r['stats']['status'] == 'exception':
-        return 'solver threw'
+        return 'solver threw'     # no declared throwing class here: PANTR runs with the adversarial direction, not NewtonTR
     op = S.Op.parse(op_line)
     solver = op.get('solver', 'panoc')
     if solver == 'alm':
